@@ -30,7 +30,7 @@ import c17_lib as L
 
 PROP = 'C17'
 INF = 999
-BASE_CONST = {'PullMutant': '"none"', 'BuildMutant': '"none"'}
+BASE_CONST = {'DefMutant': '"none"', 'PullMutant': '"none"', 'BuildMutant': '"none"'}
 
 TIERS = {
     'quick': dict(
@@ -184,35 +184,47 @@ def check_def_case(st, out):
         return
     if len(out['samples']) < 1 and len(pipe) >= 3 and pred['n'] >= 2:
         out['samples'].append(dict(base, obs=obs, spec=repr(spec)))
-    def judge_terminal(P, kind, r):
-        """'' if the observed terminal call r agrees with prediction record P, else (clause, detail)"""
-        t = P[kind]
-        if r['exc'] or r['budget']:
-            return kind, '%s() raised %s' % (kind, r['exc'] or 'beyond horizon')
-        if kind == 'first':
-            want = t['v'] if t['found'] else {'k': 'none'}
-            got = L.enc(r['v'])
-        else:
-            want = P['xs']
-            got = [L.enc(x) for x in r['v']] if type(r['v']) is list else L.enc(r['v'])
-        if got != want:
-            return kind, '%s() returned %s, predicted %s' % (kind, got, want)
-        if r['pulled'] > t['demLA']:
-            return 'laziness', '%s() pulled %d source events, DemandLA=%d' % (kind, r['pulled'], t['demLA'])
-        return ''
-
-    # first(): the first truthy output, None when the pipeline ends without one;
-    # all(): the whole list, terminating exactly when the pipeline ends
-    for kind, mk in (('first', spec.first), ('all', spec.all)):
-        t = pred[kind]
+    # first(key, default) for every predicted (key, default) pair: the first item for which key holds - the
+    # item itself - else the default; all(): the whole list, terminating exactly when the pipeline ends
+    if [(t['p'], t['d']) for t in pred['first']] != [(p_, V(d_)) for p_, d_ in FIRST_VARIANTS]:
+        raise vlib.MachineryError('FIRST_VARIANTS differs from GlomStream!FirstVariants')
+    terms = [('first', i, t) for i, t in enumerate(pred['first'])] + [('all', 0, pred['all'])]
+    for kind, i, t in terms:
         if not (t['det'] and t['demLA'] != INF):
             continue
-        r = L.run_terminal(mk(), srcd, horizon)
+        r = L.run_terminal(terminal_spec(spec, kind, t), srcd, horizon)
         out['n'] += 1
-        res = judge_terminal(pred, kind, r)
+        res = judge_terminal(kind, t, pred['xs'], r)
         if res:
             robs = dict(exc=r['exc'], budget=r['budget'], pulled=r['pulled'], v=L.enc(r['v']))
-            bad(res[0], res[1], call=kind, obs=robs)
+            bad(res[0], res[1], call=kind if kind == 'all' else 'first(%s, default=%s)' % (t['p'], L.dec(t['d'])), obs=robs)
+
+
+def terminal_spec(spec, kind, t):
+    if kind == 'all':
+        return spec.all()
+    if t['p'] == 'T' and t['d'] == {'k': 'none'}:
+        return spec.first()
+    return spec.first(L.FNS[t['p']], default=L.dec(t['d']))
+
+
+def judge_terminal(kind, t, xs, r):
+    """'' if the observed terminal call r agrees with the prediction t (and xs for all()), else (clause, detail)"""
+    if r['exc'] or r['budget']:
+        return kind, '%s() raised %s' % (kind, r['exc'] or 'beyond horizon')
+    if kind == 'first':
+        want, got = t['v'], L.enc(r['v'])
+    else:
+        want = xs
+        got = [L.enc(x) for x in r['v']] if type(r['v']) is list else L.enc(r['v'])
+    if got != want:
+        # (own clause for the one open finding: the matched item is the SKIP / STOP object itself and the
+        #  call returned something that is no stream item at all)
+        clause = 'first:sentinel-item' if (kind == 'first' and want.get('k') == 'sent' and got.get('k') == 'opaque') else kind
+        return clause, '%s(%s) returned %s, predicted %s' % (kind, t.get('p', ''), got, want)
+    if r['pulled'] > t['demLA']:
+        return 'laziness', '%s() pulled %d source events, DemandLA=%d' % (kind, r['pulled'], t['demLA'])
+    return ''
 
 
 def new_out(horizon=0):
@@ -371,11 +383,15 @@ def rand_stage(rng, depth):
         if k == 'unique' and depth > 0 and not wild:
             continue
         break
+    nested = depth >= 1 or wild          # items are (mostly) lists / tuples: partial keys x[0], len(x) make sense
     if k == 'map':
-        f = rng.choice(['inc', 'skip_odd', 'dup', 'T', 'stop_at2', 'mod2'])
-        return S('map', f), depth + (1 if f == 'dup' else 0)
+        f = rng.choice(['inc', 'skip_odd', 'dup', 'T', 'stop_at2', 'mod2', 'inc_tup', 'inc_spec']
+                       + (['item0_T', 'item0_str', 'item0', 'item0_spec', 'cnt0_T', 'cnt0'] if nested else []))
+        d = depth + 1 if f == 'dup' else max(depth - 1, 0) if f.startswith('item0') else 0 if f.startswith('cnt0') else depth
+        return S('map', f), d
     if k == 'filter':
-        return S('filter', rng.choice(['T', 'lt2', 'odd'])), depth
+        return S('filter', rng.choice(['T', 'lt2', 'odd', 'lt2_check', 'lt2_spec', 'lt2_tup', 'even', 'notnone']
+                                      + (['item0_T', 'isempty', 'cnt0_T'] if nested else []))), depth
     if k == 'slice':
         start = rng.randint(0, 3)
         stop = rng.choice([-1, -1, start, start + 1, start + 2, start + 4, 6])
@@ -383,19 +399,21 @@ def rand_stage(rng, depth):
     if k == 'limit':
         return S('slice', rng.choice(['limit', 'limit', 'slice1']), 0, rng.randint(0, 5), 1), depth
     if k in ('takewhile', 'dropwhile'):
-        return S(k, rng.choice(['T', 'lt2', 'odd'])), depth
+        return S(k, rng.choice(['T', 'lt2', 'odd', 'lt2_tup', 'lt2_spec', 'odd_spec', 'notnone']
+                               + (['item0_T', 'item0_str', 'cnt0_T', 'item0'] if nested else []))), depth
     if k == 'chunked':
         fill = rng.choice(['no', None, 0])
         return S('chunked', '', rng.randint(1, 4), 0 if fill == 'no' else 1, 0, None if fill == 'no' else fill), depth + 1
     if k == 'windowed':
         return S('windowed', '', rng.randint(1, 4)), depth + 1
     if k == 'split':
-        mode = rng.choice(['none', 'none', 'scalar', 'set'] if depth == 0 or wild else ['none', 'scalar'])
+        mode = rng.choice(['none', 'none', 'scalar', 'set', 'fn'] if depth == 0 or wild else ['none', 'scalar', 'fn'])
         # (a scalar separator None *is* the grouping mode, so scalar separators are ints)
-        sep = None if mode == 'none' else rng.choice([0, 1]) if mode == 'scalar' else rng.choice([None, 0, 1])
+        sep = None if mode == 'none' else rng.choice([0, 1]) if mode == 'scalar' else \
+            rng.choice(['odd', 'lt2', 'isempty', 'notnone']) if mode == 'fn' else rng.choice([None, 0, 1])
         return S('split', mode, 0, rng.choice([-1, -1, 1, 2, 3]), 0, sep), depth + 1
     if k == 'unique':
-        return S('unique', rng.choice(['T', 'mod2'])), depth
+        return S('unique', rng.choice(['T', 'mod2', 'mod2_tup'] + (['item0_spec', 'cnt0_T'] if nested else []))), depth
     return S('flatten'), max(depth - 1, 0)
 
 
@@ -413,13 +431,17 @@ def rand_source(rng):
     return dict(kind='fin', items=[V(rng.choice(atoms)) for _ in range(rng.randint(0, 12))]), 0
 
 
+# the (key, default) pairs of first() the specification predicts for every case (GlomStream!FirstVariants)
+FIRST_VARIANTS = [('T', None), ('notnone', 7), ('even', 9), ('isempty', 7), ('item0_T', 7)]
+
+
 def rand_row(rng, horizon=24):
     srcd, depth = rand_source(rng)
-    sub = rng.choice(['T', 'T', 'T', 'inc', 'skip_odd', 'stop_at2', 'dup'])
+    sub = rng.choice(['T', 'T', 'T', 'inc', 'skip_odd', 'stop_at2', 'dup', 'inc_spec'] + (['item0_T', 'cnt0_T'] if depth else []))
     given = rng.random() < 0.3
     sent = rng.choice([0, None, 2, 3]) if given else L.STOP
     pipe = [dict(kind='base', f=sub, a=0, b=1 if given else 0, c=0, v=V(sent))]
-    depth += 1 if sub == 'dup' else 0
+    depth = depth + 1 if sub == 'dup' else 0 if sub in ('item0_T', 'cnt0_T') else depth
     for _ in range(rng.randint(0, 6)):
         st, depth = rand_stage(rng, depth)
         pipe.append(st)
@@ -439,6 +461,17 @@ def record_rows(n, seed):
         obs['mech'] = not obs['budget']
         del obs['exc']
         row['obs'] = obs
+        # one terminal call on the same pipeline: first(key, default) for one of the predicted pairs, or all()
+        term = dict(kind='none', idx=0, v=V(None), pulled=0, budget=False)
+        choice = rng.randint(0, len(FIRST_VARIANTS) + 1)
+        if choice >= 1:
+            kind = 'first' if choice <= len(FIRST_VARIANTS) else 'all'
+            t = dict(p=FIRST_VARIANTS[choice - 1][0], d=V(FIRST_VARIANTS[choice - 1][1])) if kind == 'first' else {}
+            r = L.run_terminal(terminal_spec(spec, kind, t), row['srcd'], row['horizon'])
+            if not r['exc']:
+                v = V(None) if r['budget'] else V(r['v'])
+                term = dict(kind=kind, idx=choice if kind == 'first' else 0, v=v, pulled=r['pulled'], budget=r['budget'])
+        row['term'] = term
         rows.append(row)
     return rows, dropped
 
@@ -473,9 +506,11 @@ def validate_trace(check, rows, label, chunk):
 
 # ---- findings ------------------------------------------------------------------------------------------
 def match_finding(f, case):
-    """no known finding is open for C17 (the sentinel defect is repaired, commit 54a8dd1): every
-    disagreement with the law is a VIOLATION"""
-    return False
+    """one open finding: first(key) whose first matching item is the SKIP / STOP object itself returns the
+    pipeline's iterator (clause first:sentinel-item is only given when the predicted value is a sentinel and
+    the returned object is no stream item); everything else is a VIOLATION"""
+    m = f.get('match', {})
+    return m.get('clause') == 'first:sentinel-item' and case.get('clause') == 'first:sentinel-item'
 
 
 # ---- main -------------------------------------------------------------------------------------------------
@@ -488,7 +523,8 @@ def corrupted_rows():
     good = dict(pipe=[S('base', 'T', 0, 0, 0, L.STOP), S('map', 'inc')],
                 srcd=dict(kind='fin', items=[V(1), V(2), V(3)]), kmax=4, horizon=24,
                 obs=dict(outs=[V(2), V(3), V(4)], ended=True, pulled=[0, 1, 2, 3, 4], budget=False,
-                         ev=['b', 'p', 'e', 'p', 'e', 'p', 'e', 'x', 'f'], mech=True))
+                         ev=['b', 'p', 'e', 'p', 'e', 'p', 'e', 'x', 'f'], mech=True),
+                term=dict(kind='all', idx=0, v=V([2, 3, 4]), pulled=4, budget=False))
     a = copy.deepcopy(good)
     a['obs']['outs'][1] = V(77)
     b = copy.deepcopy(good)
@@ -497,7 +533,11 @@ def corrupted_rows():
 
 
 def spec_mutants(check):
-    runs = [('MC_C17_pull', dict(PullMutant='"reverse"'), 'pull:reverse'),
+    runs = [('MC_C17', dict(DefMutant='"first_or_default"'), 'def:first_or_default (a falsy match is replaced by the default)'),
+            ('MC_C17_pull', dict(PullMutant='"tkey_called"', Wide='TRUE', MaxStages=1), 'pull:tkey_called (T-expression key called, not glommed)'),
+            ('MC_C17_pull', dict(PullMutant='"check_passes"', Wide='TRUE', MaxStages=1), 'pull:check_passes (Check key of filter ignored)'),
+            ('MC_C17_pull', dict(PullMutant='"sepfn_ignored"', Wide='TRUE', MaxStages=1), 'pull:sepfn_ignored (callable separator never separates)'),
+            ('MC_C17_pull', dict(PullMutant='"reverse"'), 'pull:reverse'),
             ('MC_C17_pull', dict(PullMutant='"takewhile_drain"'), 'pull:takewhile_drain'),
             ('MC_C17_build', dict(BuildMutant='"inplace"'), 'build:inplace'),
             ('MC_C17_build', dict(BuildMutant='"sharekw"'), 'build:sharekw'),
@@ -624,7 +664,7 @@ def main(tier, seed):
         spec_mutants(check)
     check.extra['constants'] = {k: v for k, v in cfgd.items() if isinstance(v, dict)}
     check.assumptions += [
-        'stage callables come from a fixed library of total functions (inc, skip_odd, stop_at2, dup, mod2, lt2, odd, T); predicates and keys that raise are not modelled',
+        'stage keys / subspecs come from a fixed function library (inc, skip_odd, stop_at2, dup, mod2, item0, len, lt2, odd, notnone, even, isempty, T), each in the spellings a glom spec can take (callable, T expression, path string, tuple, Spec, Check for filter); pipelines in which a key raises (x[0] / len(x) on a wrong item) are ill-typed and skipped, also under filter, where glom turns the error into SKIP',
         'ill-typed pipelines (flatten over a non-iterable, unique / set-separator split over an unhashable item anywhere inside the horizon) are outside the law and skipped; exceptions are not compared',
         'split(maxsplit=0) (boltons yields the iterator itself) and string items are outside the universe',
         'sentinels are small ints / None, for which identity and equality coincide',
